@@ -299,6 +299,27 @@ def relevant_disciplines(case) -> set[str]:
     return rel
 
 
+def depends_on_design(case, output: str) -> bool:
+    """The output depends (through the discipline graph) on at least one design variable of the design space."""
+    dn = set(design_names(case))
+    seen: set[str] = set()
+    todo = [output]
+    while todo:
+        o = todo.pop()
+        if o in seen:
+            continue
+        seen.add(o)
+        try:
+            d = producer(case, o)
+        except KeyError:
+            continue
+        for n, _ in d["ins"]:
+            if n in dn:
+                return True
+            todo.append(n)
+    return False
+
+
 def is_feed_forward(case) -> bool:
     """No discipline reads an output of itself or of a later discipline (listing order)."""
     seen: set[str] = set()
@@ -481,7 +502,7 @@ def gen_case(rng: common.Rng, topo: str | None = None) -> dict[str, Any]:
             size[f"p{i + 1}"] = rng.pick([1, 2])
             params[i].append(f"p{i + 1}")
     for i in range(n):
-        if not (dins[i] or cin[i] or params[i]):
+        if not (dins[i] or cin[i]):
             dins[i].append("xs")
     # anchor: the exact solution is dyadic at (x0, y0)
     cpl_all = sorted({k for got in cin for k in got})
@@ -707,6 +728,9 @@ def valid_case(case) -> bool:
             if any(o not in out_names(d) for o in names) or len(set(names)) != len(names):
                 return False
         if relevant_disciplines(case) != {d["name"] for d in case["discs"]}:
+            return False
+        # no degenerate function: the objective and every constraint depend on some design variable
+        if not all(depends_on_design(case, o) for o in [case["objective"], *(o for c in case["constraints"] for o in c[0])]):
             return False
         dsn_design = set(design_names(case))
         for d in case["discs"]:
@@ -1568,9 +1592,18 @@ def flush_model(res: Result, pending: list[dict[str, Any]]) -> None:
     pending.clear()
 
 
+def gen_valid_case(rng, topo: str | None = None) -> dict[str, Any]:
+    """Rejection sampling inside the scope predicate (degenerate draws are rare)."""
+    for _ in range(50):
+        case = gen_case(rng, topo)
+        if valid_case(case):
+            return case
+    raise RuntimeError("generator cannot produce an in-scope case")
+
+
 def gen_missing_coupling_case(rng) -> dict[str, Any]:
     """A design space lacking one coupling: IDF must refuse it, MDF does not need it."""
-    case = gen_case(rng, rng.pick(["s2", "s3ring", "s2w"]))
+    case = gen_valid_case(rng, rng.pick(["s2", "s3ring", "s2w"]))
     cpl = couplings(case)
     k = rng.pick(cpl)
     case["ds"] = [v for v in case["ds"] if v["name"] != k]
@@ -1607,7 +1640,7 @@ def run(ctx) -> Result:
         if k % 9 == 8:
             case = gen_missing_coupling_case(rng)
         else:
-            case = gen_case(rng)
+            case = gen_valid_case(rng)
         run_case(res, case, common.make_rng(ctx.seed, f"mask-{k}"), pending, f"seed {ctx.seed} case {k}")
         k += 1
         if pending is not None and len(pending) >= 60:
